@@ -317,7 +317,9 @@ impl Polynomial<Cmplx> {
                 }
             }
         }
-        if refine {
+        // Cardano's formula is not backward stable ( clustered roots, coefficients of mixed scale: residuals
+        // of 1e-9 relative to the coefficients ), so its three values are always polished
+        if refine || degree == 3 {
             for j in 0..degree {
                 Self::laguer( &mut a, &mut poly_roots[j], &mut its );
             }
